@@ -479,6 +479,17 @@ func interp(toks []string) string {
 		// option struct (pointer targets included) and compares them afterwards (C20)
 		r := interp(append([]string{"trie.new"}, toks[1:]...))
 		return r + " " + lastInputsCheck
+	case "trie.stat-scribble":
+		// the caller owns the report Stat returns: overwrite every row and count of it
+		if s.St == nil {
+			return "ok"
+		}
+		r := s.St.Stat()
+		for i := range r.Levels {
+			r.Levels[i].Total, r.Levels[i].Inner, r.Levels[i].Leaf = 7, 3, 4
+		}
+		r.KeyCnt, r.NodeCnt, r.LevelCnt = -1, -1, -1
+		return "ok"
 	case "trie.stash":
 		// keep the current instance alive in a slot
 		slots[toks[1]] = *s
